@@ -36,7 +36,7 @@ class HarnessError(Exception):
 
 
 class FD:
-    __slots__ = ("fd", "pid", "path", "pos", "readable", "writable", "closed", "kind", "real")
+    __slots__ = ("fd", "pid", "path", "pos", "readable", "writable", "closed", "kind", "real", "append")
 
     def __init__(self, fd, pid, path, readable, writable, kind="file"):
         self.fd = fd
@@ -46,6 +46,7 @@ class FD:
         self.readable = readable
         self.writable = writable
         self.closed = False
+        self.append = False   # O_APPEND: every write lands at the current end of the file, wherever the position is
         self.real = None  # a lock descriptor keeps the REAL lock file open: its inode is the identity of the lock
         self.kind = kind  # 'file' | 'lock'
 
@@ -245,6 +246,9 @@ class Kernel:
         readable = m in ("r", "r+", "w+", "x+", "a+")
         writable = m != "r"
         fd = FD(self.next_fd, pid, p, readable, writable)
+        if m in ("a", "a+"):
+            fd.append = True
+            fd.pos = len(self.files[p])     # CPython positions an append-mode file at its end when it opens it
         self.next_fd += 1
         self.fdtab[fd.fd] = fd
         self._event(pid, "open", p, m)
@@ -266,6 +270,8 @@ class Kernel:
 
     def _apply_write(self, fd: FD, b: bytes):
         data = self.files.setdefault(fd.path, bytearray())
+        if fd.append:
+            fd.pos = len(data)
         if fd.pos > len(data):
             data.extend(b"\0" * (fd.pos - len(data)))
         data[fd.pos:fd.pos + len(b)] = b
